@@ -533,6 +533,7 @@ func (o *Overlay) handleSendTree(si *network.ServerIdentity, rt *ResponseTree, i
 		return
 	}
 	log.Lvl4("Received new tree")
+	verifAt("overlay.treeArriveTested", o, tree)
 	o.RegisterTree(tree)
 }
 
